@@ -3,7 +3,8 @@
 //!   c05 print  <cases.ndjson> <n>          sources of case n (base and planted)
 //!   c05 probe  <file-or-dir>               compile one program from disk (dir: main.sy + modules), print the result
 //! Case (emitted by MC_Shapes): {id:{kind,shape,ctx,...}, clause, base:{main:[tops], other:[tops]?}, planted:{...}}
-//! Record: {id, clause, base:{class, loads, kinds, detail}, planted:{class, loads, kinds, detail}, src_base?, src_planted?}
+//! Record: {id, clause, base:{class, loads, stage, kinds, detail}, planted:{..same..}, src_base?, src_planted?}
+//!   class ok|err|panic; loads yes|no|na (minilua load of the emitted Lua); stage syntax|later|none (did the parser reject?)
 //! Rust only renders, compiles, loads and records; the expectation is evaluated by TLC (MC_Shapes, mode validate).
 //! C05_STUB=accept: negative control - every planted program is recorded as accepted ("ok").
 //! C05_STUB=noload: negative control - every accepted base is recorded as not loading.
@@ -38,8 +39,8 @@ fn source_text(p: &Project) -> String {
 fn observe(p: &Project) -> Value {
     match vharness::compile(p) {
         CompileResult::Ok { lua } => match vharness::luarun::load_only(&lua) {
-            Ok(()) => json!({"class": "ok", "loads": "yes", "kinds": [], "detail": ""}),
-            Err(m) => json!({"class": "ok", "loads": "no", "kinds": [], "detail": m}),
+            Ok(()) => json!({"class": "ok", "loads": "yes", "stage": "none", "kinds": [], "detail": ""}),
+            Err(m) => json!({"class": "ok", "loads": "no", "stage": "none", "kinds": [], "detail": m}),
         },
         CompileResult::Err { errors, bytes_written } => {
             let kinds: Vec<String> = errors
@@ -55,9 +56,10 @@ fn observe(p: &Project) -> Value {
                 })
                 .collect();
             let detail = errors.first().map(|e| format!("{}:{} {}", e.file, e.line, e.message)).unwrap_or_default();
-            json!({"class": "err", "loads": "na", "kinds": kinds, "detail": detail, "bytes_written": bytes_written})
+            let stage = if errors.iter().any(|e| e.kind == "syntax") { "syntax" } else { "later" };
+            json!({"class": "err", "loads": "na", "stage": stage, "kinds": kinds, "detail": detail, "bytes_written": bytes_written})
         }
-        CompileResult::Panic { message, .. } => json!({"class": "panic", "loads": "na", "kinds": [], "detail": message}),
+        CompileResult::Panic { message, .. } => json!({"class": "panic", "loads": "na", "stage": "none", "kinds": [], "detail": message}),
     }
 }
 
@@ -108,7 +110,7 @@ fn main() {
                 let mut b = observe(&pb);
                 let mut p = observe(&pp);
                 if stub == "accept" {
-                    p = json!({"class": "ok", "loads": "yes", "kinds": [], "detail": "stub"});
+                    p = json!({"class": "ok", "loads": "yes", "stage": "none", "kinds": [], "detail": "stub"});
                 }
                 if stub == "noload" && b["class"] == "ok" {
                     b["loads"] = json!("no");
